@@ -95,11 +95,13 @@ def reference_format(
     )
     non_comment_iter: Iterator[tuple[str, str]]
     if replacing:
-        replaced = (
-            (indic, line.replace(old, new))
-            for indic, line in non_comment
-            for old, new in replacing
-        )
+
+        def replace_all(line: str) -> str:
+            for old, new in cast(list[tuple[str, str]], replacing):
+                line = line.replace(old, new)
+            return line
+
+        replaced = ((indic, replace_all(line)) for indic, line in non_comment)
         non_comment_iter = iter(replaced)
     else:
         non_comment_iter = iter(non_comment)
